@@ -1289,6 +1289,11 @@ func genAssembled(c *vh.Ctx) {
 			k = 0
 		}
 		pool := []string{randSerial(c), randSerial(c), fmt.Sprint(c.Intn(50))}
+		if c.Intn(3) == 0 { // the same magnitude with both signs
+			if n, ok := new(big.Int).SetString(pool[0], 10); ok && n.Sign() != 0 {
+				pool[1] = new(big.Int).Neg(n).String()
+			}
+		}
 		for j := 0; j < k; j++ {
 			s := singleIn{Serial: pool[c.Intn(len(pool))], Status: c.Pick([]int{0, 1, 2, 0, 1, 2, 3, 4}), Hash: c.Pick([]int{3, 3, 5, 6, 7}),
 				This: 1700000000 + int64(j*1000+c.Intn(900)), Revoked: 1600000000 + int64(c.Intn(1000000)), Reason: c.Intn(11)}
@@ -1367,6 +1372,14 @@ func genAssembled(c *vh.Ctx) {
 		}
 		miss := "424242424242"
 		qs = append(qs, &miss)
+		if len(in.Singles) > 0 { // the negation of a listed serial (listed itself or not)
+			if n, ok := new(big.Int).SetString(in.Singles[c.Intn(len(in.Singles))].Serial, 10); ok && n.Sign() != 0 {
+				v := new(big.Int).Neg(n).String()
+				if !seen[v] || c.Bool() {
+					qs = append(qs, &v)
+				}
+			}
+		}
 		for _, q := range qs {
 			if q != nil && c.Intn(3) == 0 && len(qs) > 3 {
 				continue
